@@ -1,2 +1,357 @@
-import Qvnt.Model.Op
-def main : IO Unit := IO.println "driver"
+/-
+`driver` — replays a trace written by the Rust harness (`corr`) through the Lean MODEL and
+the SPEC oracles at `Float`, and reports every line on which the implementation's
+observation differs.
+
+  MISMATCH <case> <line> <cmd> model=… impl=…      model ≠ implementation (correspondence)
+  SPECFAIL <case> <line> <cmd> spec=… impl=…       spec  ≠ implementation (a failing input)
+  DONE cases=… lines=… mismatches=… specfails=… speclines=…
+
+Only core / Std and the model files are imported, so this links as a native executable.
+-/
+import Qvnt.Model.Reg
+import Qvnt.Model.OpExpr
+import Qvnt.Spec.Denote
+import Qvnt.Spec.Dft
+
+open Qvnt
+
+/-! ### scalar instance: IEEE binary64, the same operations in the same order as the Rust kernels -/
+
+instance : Consts Float := ⟨0.5, Float.ofBits 0x3FE6A09E667F3BCD⟩   -- FRAC_1_SQRT_2
+instance : HasSqrt Float := ⟨Float.sqrt⟩
+instance : RegConsts Float := ⟨1e-15, 1e-9⟩
+
+def piF : Float := Float.ofBits 0x400921FB54442D18
+def fracPi2 : Float := Float.ofBits 0x3FF921FB54442D18
+
+/-- `Op::new(mask, angle)`: `phase /= 2; C::new(phase.cos(), phase.sin())` -/
+def halfPhase (θ : Float) : Cx Float := let h := θ / 2; ⟨Float.cos h, Float.sin h⟩
+
+/-- the angles `PI * 0.5f64.powi(j)` that `qft` hands to `rz` -/
+def qftPhase (j : Nat) : Cx Float := halfPhase (piF * Float.ofScientific 1 false 0 / Float.ofNat (2 ^ j))
+
+/-! ### parsing -/
+
+def tokNat (s : String) : Option Nat := s.toNat?
+def tokFloat (s : String) : Option Float := s.toNat?.map (fun n => Float.ofBits n.toUInt64)
+
+def parseCVec : List String → Option (Array (Cx Float) × List String)
+  | [] => none
+  | n :: rest => do
+    let n ← tokNat n
+    let rec go : Nat → List String → Array (Cx Float) → Option (Array (Cx Float) × List String)
+      | 0, r, acc => some (acc, r)
+      | k + 1, re :: im :: r, acc => do
+        let re ← tokFloat re
+        let im ← tokFloat im
+        go k r (acc.push ⟨re, im⟩)
+      | _, _, _ => none
+    go n rest (Array.mkEmpty n)
+
+def closeF (a b : Float) : Bool :=
+  if a.isNaN || b.isNaN then a.isNaN && b.isNaN else Float.abs (a - b) ≤ 1e-9
+
+def closeC (a b : Cx Float) : Bool := closeF a.re b.re && closeF a.im b.im
+
+def closeVec (a b : Array (Cx Float)) : Bool :=
+  a.size == b.size && (List.range a.size).all (fun i => closeC (a.getD i 0) (b.getD i 0))
+
+/-- equal up to one unit-modulus scalar: the ratio is read off at the largest entry -/
+def closeUpToPhase (spec impl : Array (Cx Float)) : Bool :=
+  if spec.size != impl.size then false else
+  let best := (List.range spec.size).foldl (fun b i =>
+    if (spec.getD i 0).normSq > (spec.getD b 0).normSq then i else b) 0
+  let s := spec.getD best 0
+  let m := impl.getD best 0
+  let d := s.normSq
+  if d < 1e-12 then closeVec spec impl else
+  -- lam = m / s
+  let lam : Cx Float := ⟨(m.re * s.re + m.im * s.im) / d, (m.im * s.re - m.re * s.im) / d⟩
+  closeF lam.normSq 1.0 && closeVec (spec.map (fun z => lam * z)) impl
+
+def showC (z : Cx Float) : String := s!"({z.re},{z.im})"
+
+def showVec (a : Array (Cx Float)) : String :=
+  let l := a.toList.take 16 |>.map showC
+  s!"[{a.size}:" ++ String.intercalate " " l ++ (if a.size > 16 then " …]" else "]")
+
+/-- first differing position -/
+def firstDiff (a b : Array (Cx Float)) : String :=
+  if a.size != b.size then s!"len {a.size} vs {b.size}"
+  else match (List.range a.size).find? (fun i => !closeC (a.getD i 0) (b.getD i 0)) with
+    | some i => s!"at {i}: {showC (a.getD i 0)} vs {showC (b.getD i 0)}"
+    | none => "none"
+
+/-! ### operator programs -/
+
+/-- Parse a postfix construction program into an `OpExpr` tree. -/
+partial def parseProg (toks : List String) (st : List (OpExpr Float)) : Option (OpExpr Float) :=
+  let push (e : OpExpr Float) (rest : List String) := parseProg rest (e :: st)
+  match toks with
+  | [] => match st with
+    | [e] => some e
+    | _ => none
+  | "id" :: r => push .id r
+  | "x" :: m :: r => do push (.g1 .x (← tokNat m)) r
+  | "y" :: m :: r => do push (.g1 .y (← tokNat m)) r
+  | "z" :: m :: r => do push (.g1 .z (← tokNat m)) r
+  | "s" :: m :: r => do push (.g1 .s (← tokNat m)) r
+  | "t" :: m :: r => do push (.g1 .t (← tokNat m)) r
+  | "h" :: m :: r => do push (.g1 .h (← tokNat m)) r
+  | "qft" :: m :: r => do push (.qft (← tokNat m)) r
+  | "qfts" :: m :: r => do push (.qftSwapped (← tokNat m)) r
+  | "swap" :: m :: r => do push (.two .swap (← tokNat m)) r
+  | "sqrt_swap" :: m :: r => do push (.two .sqrtSwap (← tokNat m)) r
+  | "i_swap" :: m :: r => do push (.two .iSwap (← tokNat m)) r
+  | "sqrt_i_swap" :: m :: r => do push (.two .sqrtISwap (← tokNat m)) r
+  | "rx" :: a :: m :: r => do push (.rot1 .rx (halfPhase (← tokFloat a)) (← tokNat m)) r
+  | "ry" :: a :: m :: r => do push (.rot1 .ry (halfPhase (← tokFloat a)) (← tokNat m)) r
+  | "rz" :: a :: m :: r => do push (.rot1 .rz (halfPhase (← tokFloat a)) (← tokNat m)) r
+  | "u1" :: a :: m :: r => do push (.rot1 .u1 (halfPhase (← tokFloat a)) (← tokNat m)) r
+  | "rxx" :: a :: m :: r => do push (.rot2 .rxx (halfPhase (← tokFloat a)) (← tokNat m)) r
+  | "ryy" :: a :: m :: r => do push (.rot2 .ryy (halfPhase (← tokFloat a)) (← tokNat m)) r
+  | "rzz" :: a :: m :: r => do push (.rot2 .rzz (halfPhase (← tokFloat a)) (← tokNat m)) r
+  | "u2" :: phi :: lam :: m :: r => do
+    push (.u3 (halfPhase fracPi2) (halfPhase (← tokFloat phi)) (halfPhase (← tokFloat lam)) (← tokNat m)) r
+  | "u3" :: the :: phi :: lam :: m :: r => do
+    push (.u3 (halfPhase (← tokFloat the)) (halfPhase (← tokFloat phi)) (halfPhase (← tokFloat lam))
+      (← tokNat m)) r
+  | "c" :: m :: r => do
+    let m ← tokNat m
+    match st with
+    | a :: st' => parseProg r (.c m a :: st')
+    | _ => none
+  | "dgr" :: r => match st with
+    | a :: st' => parseProg r (.dgr a :: st')
+    | _ => none
+  | op :: r =>
+    if op == "mul" || op == "mulassign" || op == "append" || op == "pushall" then
+      match st with
+      | b :: a :: st' => parseProg r (.mul a b :: st')
+      | _ => none
+    else none
+
+def atomName : Atom Float → String
+  | .id => "Id"
+  | .x a => s!"X{a}"
+  | .y a _ => s!"Y{a}"
+  | .z a => s!"Z{a}"
+  | .s a _ => s!"S{a}"
+  | .t a _ => s!"T{a}"
+  | .rx a _ => s!"RX{a}"
+  | .ry a _ => s!"RY{a}"
+  | .rz a _ => s!"RZ{a}"
+  | .rxx a _ => s!"RXX{a}"
+  | .ryy a _ => s!"RYY{a}"
+  | .rzz a _ => s!"RZZ{a}"
+  | .h1 a => s!"H{a}"
+  | .h2 a b _ => s!"H{a ||| b}"
+  | .swap ab => s!"SWAP{ab}"
+  | .iSwap ab _ => s!"iSWAP{ab}"
+  | .sqrtSwap ab _ => s!"sqrt(SWAP{ab})"
+  | .sqrtISwap ab _ => s!"sqrt(iSWAP{ab})"
+
+def singleName (g : SingleOp Float) : String :=
+  if g.ctrl != 0 then s!"C{g.ctrl}_" ++ atomName g.func else atomName g.func
+
+def opNames (o : MultiOp Float) : String :=
+  if o.isEmpty then "-" else String.intercalate "," (o.map singleName)
+
+def builtObs : Built Float → String
+  | .ok o => s!"ok {o.length} {MultiOp.actOn o} {opNames o}"
+  | .refused => "refused"
+  | .panic => "panic"
+
+/-- SPEC circuit on a buffer: one sweep per spec gate -/
+def specApply (gs : List (Spec.SGate Float)) (a : Array (Cx Float)) : Array (Cx Float) :=
+  gs.foldl (fun a g => Array.ofFn (n := a.size) (fun i => g.act (bufFn a) i.val)) a
+
+/-! ### driver state and the command interpreter -/
+
+structure DSt where
+  caseId : String := "?"
+  op : Option (MultiOp Float) := none
+  q : Option (QReg Float) := none
+  /-- reference circuit of the current op (SPEC side) -/
+  spec : Option (List (Spec.SGate Float)) := none
+
+structure Report where
+  msgs : Array String := #[]
+  mismatches : Nat := 0
+  specfails : Nat := 0
+  speclines : Nat := 0
+  lines : Nat := 0
+  cases : Nat := 0
+
+def Report.mismatch (r : Report) (st : DSt) (ln : Nat) (cmd model impl : String) : Report :=
+  { r with mismatches := r.mismatches + 1,
+           msgs := r.msgs.push s!"MISMATCH {st.caseId} {ln} {cmd} model={model} impl={impl}" }
+
+def Report.specfail (r : Report) (st : DSt) (ln : Nat) (cmd spec impl : String) : Report :=
+  { r with specfails := r.specfails + 1,
+           msgs := r.msgs.push s!"SPECFAIL {st.caseId} {ln} {cmd} spec={spec} impl={impl}" }
+
+def implPanicked (obs : List String) : Bool := obs.head? == some "panic"
+
+/-- Compare a model buffer with the observed one. -/
+def cmpVec (r : Report) (st : DSt) (ln : Nat) (cmd : String) (model : Array (Cx Float))
+    (obs : List String) : Report :=
+  match parseCVec obs with
+  | some (impl, _) =>
+    if closeVec model impl then r
+    else r.mismatch st ln cmd (firstDiff model impl) (showVec impl)
+  | none => r.mismatch st ln cmd (showVec model) (String.intercalate " " (obs.take 6))
+
+def cmpSpecVec (r : Report) (st : DSt) (ln : Nat) (cmd : String) (spec : Array (Cx Float))
+    (obs : List String) : Report :=
+  let r := { r with speclines := r.speclines + 1 }
+  match parseCVec obs with
+  | some (impl, _) =>
+    if closeVec spec impl then r
+    else r.specfail st ln cmd (firstDiff spec impl) (showVec impl)
+  | none => r.specfail st ln cmd (showVec spec) (String.intercalate " " (obs.take 6))
+
+def step (st : DSt) (r : Report) (ln : Nat) (cmd obs : List String) : DSt × Report :=
+  match cmd with
+  | "op" :: prog =>
+    match parseProg prog [] with
+    | none => (st, r.mismatch st ln "op" "unparsable-program" (String.intercalate " " obs))
+    | some e =>
+      let b := OpExpr.build qftPhase e
+      let model := builtObs b
+      -- the implementation's panic message is not compared, only the fact
+      let impl := if implPanicked obs then "panic" else String.intercalate " " obs
+      let r := if model == impl then r else r.mismatch st ln "op" model impl
+      -- SPEC: outcome class and reported support
+      let d := Spec.denote qftPhase e
+      let specObs := match d with
+        | .ok _ supp => s!"ok {supp}"
+        | .refused => "refused"
+        | .panic => "panic"
+      let implCls := match obs with
+        | "ok" :: _ :: acton :: _ => s!"ok {acton}"
+        | o :: _ => o
+        | [] => ""
+      let r := { r with speclines := r.speclines + 1 }
+      let r := if specObs == implCls then r else r.specfail st ln "op" specObs implCls
+      let st := { st with op := (match b with | .ok o => some o | _ => none),
+                          spec := (match d with | .ok gs _ => some gs | _ => none) }
+      (st, r)
+  | ["qreg", n, thr] =>
+    match tokNat n, tokNat thr with
+    | some n, some _ =>
+      if obs == ["ok"] then ({ st with q := some (QReg.new n) }, r)
+      else ({ st with q := none }, r)
+    | _, _ => (st, r.mismatch st ln "qreg" "bad-args" "")
+  | ["qstate", n, s, thr] =>
+    match tokNat n, tokNat s, tokNat thr with
+    | some n, some s, some _ =>
+      if obs == ["ok"] then ({ st with q := some (QReg.withState n s) }, r)
+      else ({ st with q := none }, r)
+    | _, _, _ => (st, r.mismatch st ln "qstate" "bad-args" "")
+  | "setpsi" :: v =>
+    match parseCVec v, st.q with
+    | some (a, _), some q => ({ st with q := some { q with psi := a } }, r)
+    | _, _ => (st, r.mismatch st ln "setpsi" "bad-args-or-no-reg" "")
+  | ["psi"] =>
+    match st.q with
+    | some q => (st, cmpVec r st ln "psi" q.psi obs)
+    | none => (st, r.mismatch st ln "psi" "no-reg" "")
+  | [c] =>
+    if c == "apply" || c == "applyeach" then
+      match st.q, st.op with
+      | some q, some o =>
+        let pre := q.psi
+        let q' := q.apply o
+        let r := cmpVec r st ln c q'.psi obs
+        -- SPEC: dense reference semantics of the construction program
+        let r := match st.spec with
+          | some gs => cmpSpecVec r st ln c (specApply gs pre) obs
+          | none => r
+        ({ st with q := some q' }, r)
+      | _, _ => (st, r.mismatch st ln c "no-reg-or-op" "")
+    else (st, r.mismatch st ln c "unknown-command" "")
+  | ["dft", m, kind] =>
+    match tokNat m, st.q with
+    | some m, some q =>
+      let swapped := kind == "1"
+      let pre := q.psi
+      match (if swapped then Op.qftSwapped qftPhase m else Op.qft qftPhase m) with
+      | none => (st, r.mismatch st ln "dft" "model-panic" "")
+      | some o =>
+        let q' := q.apply o
+        let r := cmpVec r st ln "dft" q'.psi obs
+        -- SPEC: the DFT matrix on the selected sub-register, up to one global phase
+        let v := bitsOf m
+        let N := 2 ^ v.length
+        let root (t : Nat) : Cx Float :=
+          let ang := 2.0 * piF * Float.ofNat t / Float.ofNat N
+          ⟨Float.cos ang, Float.sin ang⟩
+        let inv := 1.0 / Float.sqrt (Float.ofNat N)
+        let inp : State Float := if swapped then bufFn pre else Spec.reverseSel v (bufFn pre)
+        let spec : Array (Cx Float) := Array.ofFn (n := pre.size) (fun i =>
+          Spec.dftAct root inv v inp i.val)
+        let r := { r with speclines := r.speclines + 1 }
+        let r := match parseCVec obs with
+          | some (impl, _) =>
+            if closeUpToPhase spec impl then r
+            else r.specfail st ln "dft" (showVec spec) (showVec impl)
+          | none => r.specfail st ln "dft" (showVec spec) (String.intercalate " " (obs.take 6))
+        ({ st with q := some q' }, r)
+    | _, _ => (st, r.mismatch st ln "dft" "no-reg" "")
+  | ["matrix", size] =>
+    match tokNat size, st.op with
+    | some size, some o =>
+      let dim := 2 ^ size
+      -- rows of the reported matrix: entry (i, j) = (o e_j)[i]
+      let cols := (List.range dim).map (fun j =>
+        MultiOp.applyArr o (QReg.basisBuf dim j))
+      let flat : Array (Cx Float) := Array.ofFn (n := dim * dim) (fun k =>
+        (cols.getD (k.val % dim) #[]).getD (k.val / dim) 0)
+      let r := cmpVec r st ln "matrix" flat obs
+      let r := match st.spec with
+        | some gs =>
+          let scols := (List.range dim).map (fun j => specApply gs (QReg.basisBuf dim j))
+          let sflat : Array (Cx Float) := Array.ofFn (n := dim * dim) (fun k =>
+            (scols.getD (k.val % dim) #[]).getD (k.val / dim) 0)
+          cmpSpecVec r st ln "matrix" sflat obs
+        | none => r
+      (st, r)
+    | _, _ => (st, r.mismatch st ln "matrix" "no-op" "")
+  | c :: _ => (st, r.mismatch st ln c "unknown-command" "")
+  | [] => (st, r)
+
+def splitLine (line : String) : List String × List String :=
+  match line.splitOn " | " with
+  | [c] =>
+    -- `cmd |` with an empty observation
+    let c := if c.endsWith " |" then (c.dropEnd 2).toString else c
+    ((c.splitOn " ").filter (· ≠ ""), [])
+  | c :: o :: _ => ((c.splitOn " ").filter (· ≠ ""), (o.splitOn " ").filter (· ≠ ""))
+  | [] => ([], [])
+
+partial def loop (h : IO.FS.Stream) (st : DSt) (r : Report) (ln : Nat) : IO Report := do
+  let line ← h.getLine
+  if line.isEmpty then return r
+  let line := line.trimAscii.toString
+  if line.isEmpty || line.startsWith "#" then loop h st r (ln + 1)
+  else if line.startsWith "case " then
+    let id := ((line.splitOn " ").getD 1 "?")
+    loop h { caseId := id } { r with cases := r.cases + 1 } (ln + 1)
+  else
+    let (cmd, obs) := splitLine line
+    let (st, r) := step st { r with lines := r.lines + 1 } ln cmd obs
+    loop h st r (ln + 1)
+
+def main (args : List String) : IO UInt32 := do
+  match args with
+  | [path] =>
+    let h ← IO.FS.Handle.mk path .read
+    let r ← loop (IO.FS.Stream.ofHandle h) {} {} 1
+    for m in r.msgs do IO.println m
+    IO.println s!"DONE cases={r.cases} lines={r.lines} mismatches={r.mismatches} specfails={r.specfails} speclines={r.speclines}"
+    return 0
+  | _ =>
+    IO.eprintln "usage: driver <trace-file>"
+    return 2
